@@ -154,8 +154,30 @@ def build(extra_mods=(), force_assumed=()):
     for m in mods:
         fns_, _m = index_functions(extracted[m])
         for q_, (kw_, bo_, bc_) in fns_.items():
-            bodies[m + '::' + q_] = hashlib.sha1(' '.join(extracted[m][kw_:bc_ + 1].split()).encode()).hexdigest()[:16]
+            bodies[m + '::' + q_] = [hashlib.sha1(' '.join(extracted[m][kw_:bc_ + 1].split()).encode()).hexdigest()[:16],
+                                     shape_hash(extracted[m][kw_:bc_ + 1])]
     return {'text': text, 'registry': registry, 'logs': logs, 'contracts': allc, 'lost': lost_all, 'bodies': bodies}
+
+
+_SHAPE_KW = {'for', 'while', 'loop', 'if', 'else', 'match', 'let', 'return', 'break', 'continue', 'fn', 'const', 'in'}
+
+
+def shape_hash(fn_text):
+    """Hash of the control/call skeleton of a function: keywords, braces, and the names of called functions,
+    methods and macros; literals, operators and plain identifiers are ignored.  Two bodies with the same skeleton
+    differ only in constants, operators, indices, bounds or variable names."""
+    import rustlex
+    msk = rustlex.mask(fn_text)
+    toks = []
+    for m_ in re.finditer(r'[A-Za-z_][A-Za-z_0-9]*!?|[{}]', msk):
+        t_ = m_.group(0)
+        if t_ in '{}' or t_ in _SHAPE_KW:
+            toks.append(t_)
+        else:
+            rest = msk[m_.end():m_.end() + 2].lstrip()
+            if rest.startswith('(') or t_.endswith('!'):
+                toks.append(t_ + '()')
+    return hashlib.sha1(' '.join(toks).encode()).hexdigest()[:16]
 
 
 def line_index(text):
